@@ -38,7 +38,7 @@ const (
 func (b nodeBehaviour) isMaster() bool { return b == nbMaster || b == nbGarbageM }
 
 type shardScript struct {
-	nodes []string                  // nodes[0] is the configured Source
+	nodes []string                   // nodes[0] is the configured Source
 	plan  map[string][]nodeBehaviour // per node, per attempt
 }
 
